@@ -105,6 +105,8 @@ def make (c):
     for k in range (int (rng.choice ([0, 0, 1, 2]))):
         tag = None if rng.random () < 0.5 else int (rng.choice (alltags))
         key = float (10 + k * 2 + rng.integers (0, 2))
+        if c ['i'] % 5 == 0:
+            key = 10.0      # several requests under one key: they apply in the order given
         if rng.random () < 0.5:
             ang = [0.0, 0.0, float (np.round (rng.uniform (-180, 180), 3))] if gnd else [float (np.round (rng.uniform (-180, 180), 3)) for j in range (3)]
             if tag is not None and gnd:
@@ -385,7 +387,8 @@ def check (c):
     def same_tr (ta, tb):
         if len (ta) != len (tb):
             return False
-        for (ka, kinda, xa, taga), (kb, kindb, xb, tagb) in zip (sorted (ta, key = lambda t: (t [0], t [1])), sorted (tb, key = lambda t: (t [0], t [1]))):
+        # requests under one key keep their order (the sort is stable)
+        for (ka, kinda, xa, taga), (kb, kindb, xb, tagb) in zip (sorted (ta, key = lambda t: t [0]), sorted (tb, key = lambda t: t [0])):
             if kinda != kindb or taga != tagb or not close (ka, kb, 1e-9):
                 return False
             if any (abs (p - q) > 1e-9 * max (abs (p), abs (q), 1e-300) for p, q in zip (xa, xb)):
